@@ -133,6 +133,14 @@ func c23mode(name string) os.FileMode {
 	return 0644
 }
 
+// c23content: an empty file, or n symbolic bytes
+func c23content(name string, n int) []byte {
+	if zz.NondetBool(name + ".empty") {
+		return []byte{}
+	}
+	return zz.NondetBytes(name, n)
+}
+
 func c23sameBytes(a, b []byte) bool {
 	if len(a) != len(b) {
 		return false
@@ -163,7 +171,7 @@ func Harness_C23_EnsureDirState() {
 	before := map[string]*c23file{}
 	for _, name := range all {
 		if zz.NondetBool("initial." + name) {
-			f := &c23file{content: zz.NondetBytes("initial.content."+name, n), mode: c23mode("initial.mode." + name)}
+			f := &c23file{content: c23content("initial.content."+name, n), mode: c23mode("initial.mode." + name)}
 			d.files[name] = f
 			before[name] = &c23file{content: f.content, mode: f.mode}
 		}
@@ -173,7 +181,7 @@ func Harness_C23_EnsureDirState() {
 	want := map[string]*c23file{}
 	for _, name := range managed {
 		if zz.NondetBool("desired." + name) {
-			w := &c23file{content: zz.NondetBytes("desired.content."+name, n), mode: c23mode("desired.mode." + name)}
+			w := &c23file{content: c23content("desired.content."+name, n), mode: c23mode("desired.mode." + name)}
 			want[name] = w
 			content[name] = &MemoryFileState{Content: w.content, Mode: w.mode}
 		}
